@@ -92,7 +92,13 @@ Definition e_lm_alt (a : lm_alt) : list Z :=
 Definition run_lal_d (dflt : bool) (args : list Z) : list Z :=
   match d_a2 dflt args with
   | Some (a, []) =>
-      e_res (e_opt e_lal) (find_lit_after_loop (a2_cat a) (a2_part a) (a2_sets a) (a2_tree a))
+      let lr := find_lit_after_loop (a2_cat a) (a2_part a) (a2_sets a) (a2_tree a) in
+      e_res (e_opt e_lal) lr
+      (* hypothesis of C04_literal_after_loop_sound: a published case-sensitive string is valid UTF-8 *)
+      ++ e_bool (match lr with
+                 | Ok (Some l) => match lal_what l with LalString b false => valid_utf8 b | _ => true end
+                 | _ => true
+                 end)
       ++ e_opt (fun c : Z * list (list lm_alt) => fst c :: e_list (e_list e_lm_alt) (snd c))
                (find_landmark_chain (a2_cat a) (a2_sets a) (a2_tree a))
   | _ => bad_case
